@@ -12,7 +12,10 @@ Every line is one harness operation on the real host node; after `=>` it carries
 MISMATCH = no transcribed variant of the code (Model/Wallet.lean) explains the observation.
 MONITOR  = a clause of the property is false on the implementation's own observations:
   c16/update_never_fails/<cause>            processing a block of a legal chain failed or panicked
-  c16/wallet_best_chain/utxos|events        wallet tables differ from the fold over the best chain
+  c16/wallet_best_chain/utxos               wallet outputs differ from the fold over the best chain
+  c16/events_eq_best_chain                  the event list (ids, blocks, types) differs from the fold over the best chain
+  c16/events_on_best_chain                  an event refers to a block that is not on the best chain
+  c16/events_ordered                        Events() is not ordered by maturity height, descending
   c16/balance_eq_mature_sum, c16/immature_eq_sum   Balance() vs Σ over the host's own outputs at its tip
   c16/metrics_eq_balance[/<cause>]          Metrics().Wallet differs from Balance()
   c16/fresh_node_equal/<field>              a fresh node synced to the same tip reports something else
@@ -71,6 +74,7 @@ structure Upd where
   a1 : Option Nat
   a2 : Option Nat
   formed : List Nat          -- v2 contracts whose formation this block confirms
+  evTypes : List (Nat × Nat)  -- wallet events of the block: (id, type)
   fcev : List (Nat × String) -- every event of a host contract in the block: form/rev/res (v2), form1/rev1/res1 (v1)
   bucket : Nat
 deriving Repr
@@ -94,12 +98,16 @@ def parseUpd (s : String) : Option Upd :=
       let blk ← blk.toNat?
       let cr ← (splitDash cr "/").mapM parseUtxo
       let sp ← (splitDash sp "/").mapM parseUtxo
-      let ev ← (splitDash ev "/").mapM String.toNat?
+      let evT ← (splitDash ev "/").mapM fun t => match t.splitOn "." with
+        | [i, ty] => do pure ((← i.toNat?), (← ty.toNat?))
+        | [i] => do pure ((← i.toNat?), 0)
+        | _ => none
+      let ev := evT.map (·.1)
       let a1 ← optTag a1
       let a2 ← optTag a2
       let bucket ← bucket.toNat?
       if k != "A" && k != "R" then none
-      pure { apply := k == "A", d := ⟨h, blk, cr, sp, ev⟩, a1, a2, formed := parseFcs fcs, fcev := parseFcev fcs, bucket }
+      pure { apply := k == "A", d := ⟨h, blk, cr, sp, ev⟩, a1, a2, formed := parseFcs fcs, evTypes := evT, fcev := parseFcev fcs, bucket }
   | _ => none
 
 def getUpds (l : Line) : Option (List Upd) :=
@@ -110,6 +118,24 @@ def getUtxos (kv : List (String × String)) (k : String) : Option (List Utxo) :=
 
 def getPairs (kv : List (String × String)) (k : String) : Option (List (Nat × Nat)) :=
   (getStrList kv k).bind (·.mapM parsePair)
+
+/-- an observed wallet event `id:block:type:height:maturityHeight` -/
+structure OEv where
+  id : Nat
+  blk : Nat
+  ty : Nat
+  h : Nat
+  mh : Nat
+deriving Repr, DecidableEq
+
+def parseOEv (s : String) : Option OEv :=
+  match s.splitOn ":" with
+  | [a, b, c, d, e] => do pure ⟨← a.toNat?, ← b.toNat?, ← c.toNat?, ← d.toNat?, ← e.toNat?⟩
+  | [a, b] => do pure ⟨← a.toNat?, ← b.toNat?, 0, 0, 0⟩
+  | _ => none
+
+def getOEvs (kv : List (String × String)) (k : String) : Option (List OEv) :=
+  (getStrList kv k).bind (·.mapM parseOEv)
 
 def getKeyOpt (kv : List (String × String)) (k : String) : Option (Option Key) :=
   match lookup kv k with
@@ -473,7 +499,7 @@ def step (d : DState) (l : Line) : DState × List Verdict :=
         ({ d1 with dead := true }, [.monitor name res])
       else
       -- ---- observations
-      match getUtxos l.obs "utxo", getPairs l.obs "ev", getNat l.obs "bal", getNat l.obs "imm",
+      match getUtxos l.obs "utxo", getOEvs l.obs "ev", getNat l.obs "bal", getNat l.obs "imm",
             getNat l.obs "mbal", getNat l.obs "mimm", getKeyOpt l.obs "aidx", getNat l.obs "aaddr", getNat l.obs "ahash",
             getPairs l.obs "idx", getIntList l.obs "cel", getStrList l.obs "acc", getInt l.obs "mkidx", getInt l.obs "mkcel",
             getNat l.obs "hostrej", getStr l.obs "tip" with
@@ -481,13 +507,26 @@ def step (d : DState) (l : Line) : DState × List Verdict :=
         some oidx, some ocel, some acc, some mkidx, some mkcel, some hostrej, some _ =>
         let spec := specOf (stack.map (·.u.d))
         let outxS := sortU outx
+        let oevFull := oev
+        let oev := oevFull.map fun e => (e.id, e.blk)
         let oevS := sortP oev
         -- C16 wallet
         let m1 : List Verdict := if outxS == sortU spec.utxos then [] else
           [.monitor "c16/wallet_best_chain/utxos" s!"bestchain={showU (sortU spec.utxos)},host={showU outxS}"]
         let specEv := sortP (spec.events.map fun e => (e.id, e.blk))
-        let m2 : List Verdict := if oevS == specEv then [] else
-          [.monitor "c16/wallet_best_chain/events" s!"bestchain={showP specEv},host={showP oevS}"]
+        -- the event list against the fold over the best chain: ids, blocks and types
+        let specTy := sortP ((stack.flatMap fun b => b.u.evTypes))
+        let oevTy := sortP (oevFull.map fun e => (e.id, e.ty))
+        let stackKeys0 := stack.map fun b => (b.u.d.h, b.u.d.blk)
+        let stale := oevFull.filter fun e => !(stackKeys0.contains (e.h, e.blk)) && !(e.h == 0 && e.ty == 0)
+        let evo := (getNatList l.obs "evo").getD []
+        let ordered := (evo.zip (evo.drop 1)).all fun (a, b) => a ≥ b
+        let m2 : List Verdict :=
+          (if stale.isEmpty then [] else
+            [.monitor "c16/events_on_best_chain" s!"events_of_disconnected_blocks={showP (stale.map fun e => (e.id, e.blk))}"]) ++
+          (if oevS == specEv && (oevTy == specTy || oevFull.all (·.ty == 0)) then [] else
+            [.monitor "c16/events_eq_best_chain" s!"bestchain={showP specEv},host={showP oevS}"]) ++
+          (if ordered then [] else [.monitor "c16/events_ordered" s!"maturity_heights={evo}"])
         let m3 : List Verdict := if bal == matureSum tipH outx then [] else
           [.monitor "c16/balance_eq_mature_sum" s!"confirmed={bal},sum={matureSum tipH outx},height={tipH}"]
         let m4 : List Verdict := if imm == immatureSum tipH outx then [] else
